@@ -20,7 +20,7 @@ pub const PROPS: &[PropSpec] = &[
         rule: "non-trivial: >=2 client threads dispatched to the same store and their dispatch calls overlapped in time, with >=2 actions reduced" },
     PropSpec { id: "C02", families: &[("core", 5), ("bp", 3), ("eff", 2)], borrowed: &[], quick_runs: 96_000,
         rule: "non-trivial: two dispatches from different threads were ordered by real time (one returned before the other was invoked) or by program order, and both were reduced" },
-    PropSpec { id: "C03", families: &[("core", 6), ("mw", 4)], borrowed: &[], quick_runs: 96_000,
+    PropSpec { id: "C03", families: &[("core", 5), ("mw", 3), ("sub", 3)], borrowed: &[], quick_runs: 96_000,
         rule: "non-trivial: a whole-run direct subscriber existed and the history contains both notifying and non-notifying (Keep or suppressed) actions" },
     PropSpec { id: "C04", families: &[("stop", 10)], borrowed: &[], quick_runs: 96_000,
         rule: "non-trivial: a dispatch call overlapped stop() in time, or the queue held a backlog >= 1 when stop() was invoked" },
@@ -38,7 +38,7 @@ pub const PROPS: &[PropSpec] = &[
         rule: "non-trivial: a channeled subscriber received >=1 notification and its queue was full at least once or it was unsubscribed/stopped with items queued" },
     PropSpec { id: "C11", families: &[("eff", 7), ("stop", 3)], borrowed: &[], quick_runs: 96_000,
         rule: "non-trivial: >=1 effect ran while the reducer thread was inside a later pipeline, or stop() was invoked with effects outstanding" },
-    PropSpec { id: "C12", families: &[("mw", 10)], borrowed: &[], quick_runs: 96_000,
+    PropSpec { id: "C12", families: &[("mw", 10)], borrowed: &[("C01", "mw"), ("C03", "mw"), ("C07", "mw")], quick_runs: 96_000,
         rule: "non-trivial: some hook returned a verdict other than Continue" },
     PropSpec { id: "C13", families: &[("api", 10)], borrowed: &[], quick_runs: 96_000,
         rule: "non-trivial: >=2 client threads had public API calls overlapping in time, one of them a shutdown, subscription or iterator operation" },
